@@ -195,6 +195,17 @@ pub fn run(ctx: &Ctx) -> i32 {
             check_case(ctx, st, &tcs, s0);
         });
     }
+    // states with very many outgoing edges next to multi-code-point graphemes and their lone first code points
+    {
+        let fanouts = [33usize, 34, 40, 65, 70, 129, 140, 257, 300];
+        let n = if ctx.thorough { 1800 } else { 72 };
+        par_for(&ctx.run, n, |i, st| {
+            let mut rng = Rng::new(seed, 0x23_0000 + i as u64);
+            let tcs = gen::wide_fanout_family(&mut rng, fanouts[i % fanouts.len()]);
+            st.count("wide_fanout_families");
+            check_case(ctx, st, &tcs, s0);
+        });
+    }
     // thousands of automaton states
     par_for(&ctx.run, if ctx.thorough { 6 } else { 2 }, |i, st| {
         let mut rng = Rng::new(seed, 0x22_0000 + i as u64);
